@@ -223,7 +223,7 @@ Definition jstr (e : bytes) : bytes := [34] ++ e ++ [34].
 Lemma copy_tag_values_done fuel l K out endp count : eat_ws_commas l = 93 :: K -> copy_tag_values (S fuel) l out endp count = Ok (out, endp, count).
 Proof. intros H. cbn [copy_tag_values]. rewrite H. cbn [peek bind]. change (93 =? 93) with true. reflexivity. Qed.
 
-Lemma copy_tag_values_step fuel l s e c0 rest0 pre F endp count : escd s e -> len pre = endp -> 2 + len s <= len F ->
+Lemma copy_tag_values_step fuel l s e c0 rest0 pre F endp count : escd0 s e -> len pre = endp -> 2 + len s <= len F ->
   eat_ws_commas l = 34 :: e ++ 34 :: c0 :: rest0 ->
   copy_tag_values (S fuel) l (pre ++ F) endp count
   = copy_tag_values fuel (c0 :: rest0) ((pre ++ enc_str s) ++ drop (2 + len s) F) (endp + 2 + len s) (count + 1).
@@ -245,7 +245,7 @@ Proof.
   unfold enc_str. rewrite <- !app_assoc, HF'. reflexivity.
 Qed.
 
-Lemma copy_tag_values_items vs : forall evs fuel pre F K endp count, Forall2 escd vs evs ->
+Lemma copy_tag_values_items vs : forall evs fuel pre F K endp count, Forall2 escd0 vs evs ->
   (length vs < fuel)%nat -> len pre = endp -> sumN (map str_size vs) <= len F ->
   copy_tag_values fuel (items_close (map jstr evs) K) (pre ++ F) endp count
   = Ok (pre ++ concat (map enc_str vs) ++ drop (sumN (map str_size vs)) F, endp + sumN (map str_size vs), count + len vs).
@@ -270,7 +270,7 @@ Qed.
 Lemma vals_text_items evs K : join [44] (map jstr evs) ++ 93 :: K = match evs with [] => 93 :: K | e :: r => jstr e ++ items_close (map jstr r) K end.
 Proof. rewrite join_close_items. destruct evs; reflexivity. Qed.
 
-Lemma copy_tag_values_spec vs evs fuel pre F K endp count : Forall2 escd vs evs ->
+Lemma copy_tag_values_spec vs evs fuel pre F K endp count : Forall2 escd0 vs evs ->
   (length vs < fuel)%nat -> len pre = endp -> sumN (map str_size vs) <= len F ->
   copy_tag_values fuel (join [44] (map jstr evs) ++ 93 :: K) (pre ++ F) endp count
   = Ok (pre ++ concat (map enc_str vs) ++ drop (sumN (map str_size vs)) F, endp + sumN (map str_size vs), count + len vs).
@@ -292,7 +292,7 @@ Proof.
 Qed.
 
 (* the first pass skips the same array *)
-Lemma burn_array_items vs : forall evs fuel K, Forall2 escd vs evs -> (S (length vs) < fuel)%nat ->
+Lemma burn_array_items vs : forall evs fuel K, Forall2 escd0 vs evs -> (S (length vs) < fuel)%nat ->
   burn_array fuel 0 (items_close (map jstr evs) K) = Ok K.
 Proof.
   induction vs as [|s r IH]; intros evs fuel K H2 Hf; (destruct fuel as [|fuel]; [lia|]).
@@ -305,7 +305,7 @@ Proof.
     change (34 =? 34) with true. cbv iota. rewrite <- app_assoc. cbn [app]. rewrite (burn_string_escaped s e _ Vs Es). cbn [bind].
     apply (IH er (S fuel) K H2r). cbn [length] in Hf. lia.
 Qed.
-Lemma burn_array_vals vs evs fuel K : Forall2 escd vs evs -> (S (S (length vs)) < fuel)%nat ->
+Lemma burn_array_vals vs evs fuel K : Forall2 escd0 vs evs -> (S (S (length vs)) < fuel)%nat ->
   burn_array fuel 0 (join [44] (map jstr evs) ++ 93 :: K) = Ok K.
 Proof.
   intros H2 Hf. rewrite vals_text_items. destruct vs as [|s r].
@@ -455,7 +455,7 @@ Section Member.
   Qed.
 
   (* a tag field: hash, letter, quote, colon, bracket, values *)
-  Lemma fmem_tag L vs evs K : is_letter L = true -> existsb (fun x => x =? L) (fl_letters st) = false -> Forall2 escd vs evs ->
+  Lemma fmem_tag L vs evs K : is_letter L = true -> existsb (fun x => x =? L) (fl_letters st) = false -> Forall2 escd0 vs evs ->
     filter_member st (35 :: L :: 34 :: 58 :: 91 :: join [44] (map jstr evs) ++ 93 :: K)
     = Ok (mkFl (fl_out st) c (L :: fl_letters st) (fl_start_ids st) (fl_start_authors st) (fl_start_kinds st)
                (fl_start_tags st ++ [L :: 34 :: 58 :: 91 :: join [44] (map jstr evs) ++ 93 :: K]), K).
@@ -581,7 +581,7 @@ Qed.
 
 (* ---- the tag fields, then limit / since / until ---- *)
 Definition tagspec := (N * (list bytes * list bytes))%type.     (* letter, values, escaped values *)
-Definition tag_ok (t : tagspec) : Prop := is_letter (fst t) = true /\ Forall2 escd (fst (snd t)) (snd (snd t)).
+Definition tag_ok (t : tagspec) : Prop := is_letter (fst t) = true /\ Forall2 escd0 (fst (snd t)) (snd (snd t)).
 Definition tpart (t : tagspec) : bytes := tag_part (fst t) (snd (snd t)).
 Definition tvals_text (t : tagspec) : bytes := join [44] (map jstr (snd (snd t))).
 
